@@ -409,3 +409,107 @@ def namedtuple_attrs(ctx, modules, rule="LINT-g"):
                   m.rel, f"struct format yields {len(kinds)} values for {len(nts.defs[key])} fields",
                   f"struct format yields {len(kinds)} values but namedtuple {key[1]} has {len(nts.defs[key])} fields: _make raises TypeError on every block")
   return n
+
+
+# ---------------------------------------------------------------------------------------
+# DET-set: iteration over a set in an order-sensitive context
+# ---------------------------------------------------------------------------------------
+
+_SET_CTORS = ("set", "frozenset")
+_ORDER_FREE = {"sorted", "len", "min", "max", "sum", "any", "all", "set", "frozenset"}
+
+
+def _is_set_literal(v) -> bool:
+  return isinstance(v, (ast.Set, ast.SetComp)) or (isinstance(v, ast.Call) and unparse(v.func) in _SET_CTORS)
+
+
+def _is_set_annotation(a) -> bool:
+  if a is None:
+    return False
+  t = unparse(a)
+  return t.startswith(("typing.Set[", "Set[", "typing.FrozenSet[", "FrozenSet[", "set[", "frozenset[", "typing.AbstractSet[")) or t in ("set", "frozenset", "typing.Set", "typing.FrozenSet")
+
+
+def set_attr_names(modules) -> typing.Set[str]:
+  """Attribute names that hold a set somewhere in `modules` (class-level or self.x assignments)."""
+  names = set()
+  for m in modules:
+    for n in ast.walk(m.tree):
+      if isinstance(n, ast.ClassDef):
+        for st in n.body:
+          if isinstance(st, ast.Assign) and _is_set_literal(st.value):
+            names.update(t.id for t in st.targets if isinstance(t, ast.Name))
+          if isinstance(st, ast.AnnAssign) and isinstance(st.target, ast.Name) and (_is_set_annotation(st.annotation) or (st.value is not None and _is_set_literal(st.value))):
+            names.add(st.target.id)
+      if isinstance(n, (ast.Assign, ast.AnnAssign)):
+        ts = n.targets if isinstance(n, ast.Assign) else [n.target]
+        for t in ts:
+          if isinstance(t, ast.Attribute) and isinstance(t.value, ast.Name) and t.value.id == "self":
+            if (n.value is not None and _is_set_literal(n.value)) or (isinstance(n, ast.AnnAssign) and _is_set_annotation(n.annotation)):
+              names.add(t.attr)
+  return names
+
+
+def _is_set_expr(e, scope, attr_names) -> bool:
+  if _is_set_literal(e):
+    return True
+  if isinstance(e, ast.BinOp) and isinstance(e.op, (ast.BitOr, ast.BitAnd, ast.Sub, ast.BitXor)):
+    return _is_set_expr(e.left, scope, attr_names) or _is_set_expr(e.right, scope, attr_names)
+  if isinstance(e, ast.Call) and isinstance(e.func, ast.Attribute) and e.func.attr in ("union", "intersection", "difference", "symmetric_difference", "copy") and _is_set_expr(e.func.value, scope, attr_names):
+    return True
+  if isinstance(e, ast.Attribute) and e.attr in attr_names:
+    return True
+  if isinstance(e, ast.Name):
+    if isinstance(scope, (ast.FunctionDef, ast.AsyncFunctionDef)):
+      for a in scope.args.args + scope.args.kwonlyargs + scope.args.posonlyargs:
+        if a.arg == e.id and _is_set_annotation(a.annotation):
+          return True
+    for st in ast.walk(scope):
+      if isinstance(st, ast.Assign) and any(isinstance(x, ast.Name) and x.id == e.id for x in st.targets) and _is_set_literal(st.value):
+        return True
+      if isinstance(st, ast.AnnAssign) and isinstance(st.target, ast.Name) and st.target.id == e.id and (_is_set_annotation(st.annotation) or (st.value is not None and _is_set_literal(st.value))):
+        return True
+  return False
+
+
+def _order_free_body(body) -> bool:
+  for st in body:
+    if isinstance(st, ast.Expr) and isinstance(st.value, ast.Call) and isinstance(st.value.func, ast.Attribute) and st.value.func.attr in ("add", "discard", "update"):
+      continue
+    return False
+  return True
+
+
+def set_iteration(ctx, modules, rule="DET-set", attr_modules=None):
+  """Flags every order-sensitive iteration over a set (for loop, list/tuple/dict comprehension or
+  generator not consumed by sorted/len/min/max/sum/any/all/set, list()/tuple()/join of a set)."""
+  from ..core import enclosing, parent
+  mods = list(_iter_modules(ctx, modules))
+  attr_names = set_attr_names(attr_modules if attr_modules is not None else mods)
+  n = 0
+  for m in mods:
+    for node in ast.walk(m.tree):
+      it = None
+      if isinstance(node, ast.For):
+        if _order_free_body(node.body):
+          continue
+        it = node.iter
+      elif isinstance(node, (ast.ListComp, ast.GeneratorExp, ast.DictComp)):
+        p = parent(node)
+        if isinstance(p, ast.Call) and unparse(p.func) in _ORDER_FREE and node in p.args:
+          continue
+        for g in node.generators:
+          scope = enclosing(node, (ast.FunctionDef, ast.AsyncFunctionDef)) or m.tree
+          if _is_set_expr(g.iter, scope, attr_names):
+            it = g.iter
+      elif isinstance(node, ast.Call) and node.args and (unparse(node.func) in ("list", "tuple", "enumerate", "iter", "next") or (isinstance(node.func, ast.Attribute) and node.func.attr in ("join", "extend"))):
+        it = node.args[0]
+      if it is None:
+        continue
+      scope = enclosing(node, (ast.FunctionDef, ast.AsyncFunctionDef)) or m.tree
+      if _is_set_expr(it, scope, attr_names):
+        n += 1
+        ctx.unit(m)
+        ctx.bad(rule, f"{ctx.ix.scope_name(m, node)}|iteration over {short(it, 40)}", ctx.where(m, node),
+                f"`{short(node, 70)}` iterates over the set `{short(it, 40)}`: the order depends on the hash seed of the process, so the result may differ from run to run")
+  return n
